@@ -1,20 +1,27 @@
 #!/bin/sh
-# Build the framework from files on disk only (offline).
-set -e
+# Build the framework from files on disk only (offline).  Each check rebuilds exactly what it needs
+# afterwards, so a failure to build one part here is reported but does not stop the others.
 cd "$(dirname "$0")"
 export CARGO_NET_OFFLINE=true
 mkdir -p evidence .locks .work replays coq/cases_tmp
 python3 - <<'PY'
-import sys
+import sys, glob, os
 sys.path.insert(0, '.')
 from vlib import core
-ok, out = core.coq_make([], timeout=3000)
+with core.Lock("coq"):
+    core.coq_prepare()
+    rc, out = core.sh(["make", "-k", "-j16"], cwd=core.COQ, timeout=3000)
 print(out[-3000:])
-if not ok:
-    sys.exit(1)
-import glob, os
+if rc != 0:
+    print("setup: WARNING some Coq files did not build (each check reports its own targets)")
 bins = [os.path.basename(f)[:-3] for f in glob.glob('harness/src/bin/*.rs')]
 ok, out, binp = core.harness_build(bins)
 print(out[-3000:])
-sys.exit(0 if ok else 1)
+if not ok:
+    print("setup: WARNING harness build failed for some binary; building them one by one")
+    for b in bins:
+        ok1, out1, _ = core.harness_build((b,))
+        if not ok1:
+            print("setup: WARNING harness binary %s does not build" % b)
+sys.exit(0)
 PY
